@@ -956,9 +956,10 @@ def check_C07(A, R, tier):
     R.assume("the twin-run clause (\"executed or skipped exactly as without failures\") is not decided statically")
 
 
-def iteration_completes(A, run):
-    """does the partition run of the signal processor finish handling its signal normally (reach the head of the loop that
-    binds the signal's job again, on taken edges, without passing an error exit)?"""
+def signal_loop(A, run):
+    """(fid, body, head) of the loop that hands out the signals in this partition run: the loop that binds the signal's job
+    (directly, or - when the batch was first collected into a local list - exactly from it), not the loop that moves new signals
+    into the queue, and of several candidates in one function the one that comes first (dominates the others)"""
     cands = []
     for sym, (roles, _c) in run.syms.items():
         vias = [r[1] for r in roles if isinstance(r, tuple) and r[0] == "via"]
@@ -967,11 +968,38 @@ def iteration_completes(A, run):
             body = A.facts.body(run.frames[sym[1]][0])
             if body is not None and len(body.natural_loop(sym[2])) > 1:
                 cands.append((sym[1], body, sym[2]))
-    cands = sorted(set((f, b.name, h) for (f, b, h) in cands))
+    direct = [(f, b, h) for (f, b, h) in cands
+              if any(sy[:3] == ("b", f, h) and "sigtarget" in ro for sy, (ro, _c2) in run.syms.items() if isinstance(sy, tuple))]
+    if direct:
+        cands = direct       # the loop that binds the signal's job directly, not one that re-reads it from a local list
+    if len(set((f, h) for (f, b, h) in cands)) > 1:
+        # not the loop that moves the newly emitted signals into the queue
+        transfer = set()
+        for v in run.by_kind("push_signal"):
+            sy = v["key"][0]
+            if v.get("container") == "queue" and isinstance(sy, tuple) and sy[0] == "b":
+                transfer.add((sy[1], sy[2]))
+        rest = [(f, b, h) for (f, b, h) in cands if (f, h) not in transfer]
+        if rest:
+            cands = rest
+    uniq = {}
+    for (f, b, h) in cands:
+        uniq[(f, h)] = (f, b, h)
+    cands = list(uniq.values())
+    if len(cands) > 1 and len(set(f for (f, b, h) in cands)) == 1:
+        b0 = cands[0][1]
+        first = [(f, b, h) for (f, b, h) in cands if all(h == h2 or b0.dominates(h, h2) for (_f2, _b2, h2) in cands)]
+        if len(first) == 1:
+            cands = first
     if len(cands) != 1:
         raise Imprecision("cannot identify the signal loop (%d candidates)" % len(cands))
-    fid, bn, h = cands[0]
-    body = A.facts.body(bn)
+    return cands[0]
+
+
+def iteration_completes(A, run):
+    """does the partition run of the signal processor finish handling its signal normally (reach the head of the loop that
+    binds the signal's job again, on taken edges, without passing an error exit)?"""
+    fid, body, h = signal_loop(A, run)
     loop = body.natural_loop(h)
     sw = body.term(h)["t"]
     errs = error_exit_blocks(A, body) | residual_blocks(body)
@@ -1677,42 +1705,54 @@ def check_C05(A, R, tier):
     # R5.4 signals emitted while handling are not lost: the local signal list is moved into the queue
     sp = A.signal_processor()
     run = H[(K["done"], sorted(C["Finished"])[0])]
-    idx = run._index()
-    fid0 = idx.get((sp.name, ()))
-    transfers = []
-    for v in run.by_kind("push_signal"):
-        if v["container"] == "queue":
-            p_ = run.pos_in(v, fid0)
-            if p_ is not None:
-                transfers.append(p_[1])
-    for v in run.by_kind("extend"):
-        if v["target"] == ("self", A.L.signals_field):
-            p_ = run.pos_in(v, fid0)
-            if p_ is not None:
-                transfers.append(p_[1])
-    R.ob("R5.4", "%s | signals emitted by the handlers are moved into the queue" % short(sp.name), bool(transfers),
+    tfacts = [v for v in run.by_kind("push_signal") if v["container"] == "queue"]
+    tfacts += [v for v in run.by_kind("extend") if v["target"] == ("self", A.L.signals_field)]
+    R.ob("R5.4", "%s | signals emitted by the handlers are moved into the queue" % short(sp.name), bool(tfacts),
          detail="the local list of new signals is never transferred")
-    if transfers:
-        body = sp
-        # the loop that hands out the signals: binding block of a (non-transfer) signal-target key in the processor's activation
-        heads = set()
-        for k_, v in run.facts.items():
-            ki = v.get("key") if isinstance(v, dict) else None
-            if isinstance(ki, tuple) and len(ki) == 2 and isinstance(ki[0], tuple) and ki[0][:2] == ("b", fid0) and is_role(ki, "sigtarget"):
-                if not (k_[0] == "push_signal" and v.get("container") == "queue"):
-                    heads.add(ki[0][2])
-        heads -= set(transfers)
-        okp = bool(heads)
-        errs = error_exit_blocks(A, body) | residual_blocks(body)
-        for h in heads:
-            loop = body.natural_loop(h)
-            if set(transfers) & loop:
-                continue       # this loop is the transfer itself
-            region, cont = loop_region(body, h, A)
-            if cont is None:
+    if tfacts:
+        okp = True
+        try:
+            lfid, lbody, lhead = signal_loop(A, run)
+        except Imprecision:
+            lfid = None
+            okp = False
+        for tv in tfacts[:1] if lfid is not None else []:
+            tfid = tv.get("fid")
+            tfn = run.frames.get(tfid)
+            body = A.facts.body(tfn[0]) if tfn else None
+            if body is None:
                 okp = False
                 continue
-            r = body.reachable(cont, set(transfers) | errs)
+            tblocks = set(v["bb"] for v in tfacts if v.get("fid") == tfid)
+            errs = error_exit_blocks(A, body) | residual_blocks(body)
+            # where the handling of the batch ends inside the activation that performs the transfer
+            if tfid == lfid:
+                loop = body.natural_loop(lhead)
+                if tblocks & loop:
+                    okp = False
+                    continue
+                region, cont = loop_region(body, lhead, A)
+                start = cont
+            else:
+                # the batch is handled in a callee: start behind the call that leads there
+                start = None
+                for c in run.by_kind("call"):
+                    if c.get("fid") == tfid:
+                        for fr_id, fr_nm in run.frames.items():
+                            pass
+                chain_probe = None
+                for k_, v in run.facts.items():
+                    if isinstance(v, dict) and v.get("fid") == lfid:
+                        chain_probe = v
+                        break
+                if chain_probe is not None:
+                    pos = run.pos_in(chain_probe, tfid)
+                    if pos is not None:
+                        start = pos[1]
+            if start is None:
+                okp = False
+                continue
+            r = body.reachable(start, tblocks | errs)
             if set(returns_of(body)) & r:
                 guarded = any((M.callee_name(body.term(b_)) or "").endswith("::is_empty") for b_ in r if body.term(b_)["k"] == "call")
                 okp = okp and guarded
